@@ -206,6 +206,16 @@ MUTANTS: List[Tuple[str, List[Tuple[str, str, str]], List[Tuple[str, str]]]] = [
     ('bd9-recurrent-iterations-dropped', [(B, "                            NodeField.max_iterations: input_mark.max_iterations,\n", "")], [('C15', 'BD-9')]),
     ('bd9-switch-decider-not-visited', [(B, "                    self._add_switch_node(switch_node_id, get_node_id(input_mark.switch))\n                    _set_visited(input_mark.switch)\n", "                    self._add_switch_node(switch_node_id, get_node_id(input_mark.switch))\n")], [('C15', 'BD-9')]),
     ('vl10-valid-recurrent-rejected', [(B, "                if isinstance(input_mark, RecurrentSubGraphMark):\n                    self._check_base_class(input_mark.start_node)\n", "                if isinstance(input_mark, RecurrentSubGraphMark):\n                    self._check_base_class(input_mark.max_iterations)\n")], [('C16', 'VL-10')]),
+    # ---- guards of the fixes F65 - F72 (third hunt, DESIGN 9.14): each fix reverted
+    ('f65-fixed-policy-class', [(M, "        retry_policy = self.dag.retry_policy(node=node)\n", "        retry_policy = NodeRetryPolicy(node=node)\n"),
+                                (M, "from ml_pipeline_engine.node import run_node\n", "from ml_pipeline_engine.node import run_node\nfrom ml_pipeline_engine.node.retrying import NodeRetryPolicy\n")], [('C12', 'RT-8')]),
+    ('f66-empty-exceptions-unset', [(R, "        return (Exception,) if self.node.exceptions is None else self.node.exceptions\n", "        return self.node.exceptions or (Exception,)\n")], [('C12', 'RT-1')]),
+    ('f67-equality-exit', [(M, "                if n_attempts >= retry_policy.attempts:", "                if n_attempts == retry_policy.attempts:")], [('C12', 'RT-9'), ('C02', 'RT-9')]),
+    ('f68-return-annotation-dependency', [(B, "            if name == 'return':\n                # The annotation of the result is not a parameter\n                continue\n\n", "")], [('C15', 'BD-13')]),
+    ('f69-inherited-generic-class', [(V, "        while vars(node).get('__generic_class__') is not None:", "        while getattr(node, '__generic_class__', None) is not None:")], [('C20', 'VW-7')]),
+    ('f70-source-unavailable', [(V, "        try:\n            line_number = inspect.getsourcelines(node)[-1]\n        except (OSError, TypeError):\n            # The source is not available (a class created dynamically, a byte-code only module)\n            return f'{file_path}.py'\n", "        line_number = inspect.getsourcelines(node)[-1]\n")], [('C20', 'VW-7')]),
+    ('f71-build-dag-none', [(B, "    builder._check_base_class(output_node)\n", "")], [('C16', 'VL-8')]),
+    ('f72-registry-overwrite', [(N, "    while registry_name in globals():\n        serial += 1\n        registry_name = f'{class_name}_{serial}'\n", "")], [('C07', 'BN-4'), ('C08', 'BN-4'), ('C17', 'BN-4')]),
 ]
 
 ALL_PROPS = [f'C{n:02d}' for n in range(2, 21)]
